@@ -21,23 +21,26 @@ from .symnum import HarnessError
 # abstract actions
 LOCAL, TEST_PRESENT, RET_TABLE, ALLOC, STORE, RET_SELF, SETDEFAULT_RET, SETDEFAULT_ASSIGN, \
     RET_OTHER, LOCK_ACQ, LOCK_REL, BRANCH_LOCAL, END, SETDEFAULT_DISCARD, \
-    SDR_RET, SDW_RET, SDR_ASSIGN, SDW_ASSIGN, SDR_DISCARD, SDW_DISCARD = range(20)
+    SDR_RET, SDW_RET, SDR_ASSIGN, SDW_ASSIGN, SDR_DISCARD, SDW_DISCARD, \
+    LOAD_LOCAL, TEST_LOCAL, RET_LOCAL, LOADTEST_LOCAL = range(24)
 NAMES = ["LOCAL", "TEST_PRESENT", "RET_TABLE", "ALLOC", "STORE", "RET_SELF", "SETDEFAULT_RET",
          "SETDEFAULT_ASSIGN", "RET_OTHER", "LOCK_ACQ", "LOCK_REL", "BRANCH_LOCAL", "END",
          "SETDEFAULT_DISCARD", "SD_READ_RET", "SD_WRITE_RET", "SD_READ_ASSIGN", "SD_WRITE_ASSIGN",
-         "SD_READ_DISCARD", "SD_WRITE_DISCARD"]
+         "SD_READ_DISCARD", "SD_WRITE_DISCARD", "LOAD_LOCAL", "TEST_LOCAL", "RET_LOCAL", "LOADTEST_LOCAL"]
 # a table that is not a builtin dict has a Python-level setdefault: a look-up, then (if absent) an
 # unconditional store, with a preemption point in between -- two steps instead of one
 SPLIT = {SETDEFAULT_RET: (SDR_RET, SDW_RET), SETDEFAULT_ASSIGN: (SDR_ASSIGN, SDW_ASSIGN),
          SETDEFAULT_DISCARD: (SDR_DISCARD, SDW_DISCARD)}
-RETURNS = (RET_TABLE, RET_SELF, SETDEFAULT_RET, RET_OTHER, SDW_RET)
+RETURNS = (RET_TABLE, RET_SELF, SETDEFAULT_RET, RET_OTHER, SDW_RET, RET_LOCAL)
+MAX_SLOTS = 2
 
 
 class Step:
-    __slots__ = ("line", "action", "next", "alt", "src")
+    __slots__ = ("line", "action", "next", "alt", "src", "slot")
 
     def __init__(self, line: int, action: int, src: str) -> None:
         self.line, self.action, self.src = line, action, src
+        self.slot = 0                     # which local holds / receives the table's value
         self.next: Optional[int] = None   # index of the next step (fallthrough / branch taken)
         self.alt: Optional[int] = None    # branch not taken
 
@@ -47,6 +50,39 @@ class Step:
 
 def _mentions(node: ast.AST, attr: str) -> bool:
     return any(isinstance(n, ast.Attribute) and n.attr == attr for n in ast.walk(node))
+
+
+def _table_read(node: ast.AST, table: str) -> bool:
+    """`<table>.get(key)` / `<table>.get(key, None)` / `<table>[key]`: the value, or None."""
+    if isinstance(node, ast.Call) and isinstance(node.func, ast.Attribute) and node.func.attr == "get" and \
+            _is_table(node.func.value, table):
+        return len(node.args) == 1 or (len(node.args) == 2 and isinstance(node.args[1], ast.Constant)
+                                       and node.args[1].value is None)
+    return False
+
+
+def _local_test(test: ast.AST, slots: Dict[str, int]) -> Optional[Tuple[str, bool, Optional[ast.AST]]]:
+    """(name, true-when-present, walrus value) for `x is not None`, `x is None`, `x`, `not x`,
+    and the same with `(x := <expr>)` in place of x."""
+    def name_of(n: ast.AST) -> Tuple[Optional[str], Optional[ast.AST]]:
+        if isinstance(n, ast.Name):
+            return n.id, None
+        if isinstance(n, ast.NamedExpr) and isinstance(n.target, ast.Name):
+            return n.target.id, n.value
+        return None, None
+    if isinstance(test, ast.Compare) and len(test.ops) == 1 and isinstance(test.comparators[0], ast.Constant) \
+            and test.comparators[0].value is None and isinstance(test.ops[0], (ast.Is, ast.IsNot)):
+        nm, val = name_of(test.left)
+        if nm is not None:
+            return nm, isinstance(test.ops[0], ast.IsNot), val
+    if isinstance(test, ast.UnaryOp) and isinstance(test.op, ast.Not):
+        nm, val = name_of(test.operand)
+        if nm is not None:
+            return nm, False, val
+    nm, val = name_of(test)
+    if nm is not None:
+        return nm, True, val
+    return None
 
 
 def _is_table(node: ast.AST, table: str) -> bool:
@@ -67,6 +103,7 @@ class Extractor:
         self.offset = self.first_line - 1
         self.table, self.env, self.is_init = table, env, is_init
         self.steps: List[Step] = []
+        self.slots: Dict[str, int] = {}    # locals holding a value read from the table
 
     def line(self, node: ast.AST) -> int:
         return node.lineno + self.offset
@@ -123,6 +160,11 @@ class Extractor:
                 i = self.add(st, RET_TABLE)
             elif isinstance(v, ast.Name) and v.id == "self":
                 i = self.add(st, RET_SELF)
+            elif isinstance(v, ast.Name) and v.id in self.slots:
+                i = self.add(st, RET_LOCAL)
+                self.steps[i].slot = self.slots[v.id]
+            elif _table_read(v, t):
+                raise HarnessError(f"unmodelled return of a possibly-None table read: {ast.unparse(st)}")
             elif isinstance(v, ast.Call) and isinstance(v.func, ast.Attribute) and \
                     v.func.attr == "setdefault" and _is_table(v.func.value, t):
                 i = self.add(st, SETDEFAULT_RET)
@@ -133,6 +175,26 @@ class Extractor:
             return []          # return leaves the function: patched to END by caller via no exits
         if isinstance(st, ast.If):
             test = st.test
+            lt = _local_test(test, self.slots)
+            if lt is not None and (lt[0] in self.slots or (lt[2] is not None and _table_read(lt[2], t))):
+                nm, when_present, walrus = lt
+                if walrus is not None:
+                    self.slots.setdefault(nm, len(self.slots))
+                    if len(self.slots) > MAX_SLOTS:
+                        raise HarnessError("more locals hold table values than the model has slots")
+                i = self.add(st, LOADTEST_LOCAL if walrus is not None else TEST_LOCAL)
+                self.steps[i].slot = self.slots[nm]
+                body_start = len(self.steps)
+                body_exits = self.block(st.body)
+                else_start = len(self.steps)
+                else_exits = self.block(st.orelse) if st.orelse else []
+                # `next` = the local holds an object, `alt` = it is None
+                taken, not_taken = ("next", "alt") if when_present else ("alt", "next")
+                self._patch((i, taken), body_start)
+                if st.orelse:
+                    self._patch((i, not_taken), else_start)
+                    return body_exits + else_exits
+                return body_exits + [(i, not_taken)]
             if _mentions(test, t):
                 ok = isinstance(test, ast.Compare) and len(test.ops) == 1 and \
                     isinstance(test.ops[0], (ast.In, ast.NotIn)) and _is_table(test.comparators[0], t)
@@ -191,6 +253,13 @@ class Extractor:
                     raise HarnessError(f"unmodelled table store: {ast.unparse(st)}")
                 i = self.add(st, STORE)
                 return [(i, "next")]
+            if isinstance(tgt, ast.Name) and tgt.id != "self" and _table_read(v, t):
+                self.slots.setdefault(tgt.id, len(self.slots))
+                if len(self.slots) > MAX_SLOTS:
+                    raise HarnessError("more locals hold table values than the model has slots")
+                i = self.add(st, LOAD_LOCAL)
+                self.steps[i].slot = self.slots[tgt.id]
+                return [(i, "next")]
             if isinstance(tgt, ast.Name) and tgt.id == "self":
                 if isinstance(v, ast.Call) and isinstance(v.func, ast.Attribute) and \
                         v.func.attr == "setdefault" and _is_table(v.func.value, t):
@@ -235,6 +304,7 @@ def extract(cls: Any, table: str, env: Dict[str, Any], atomic_setdefault: bool =
             s.alt = off
     for s in init:
         s2 = Step(s.line, s.action if s.action != RET_SELF else LOCAL, s.src)
+        s2.slot = s.slot
         if s.action in RETURNS and s.next is None:
             s2.next = off + len(init) - 1
         else:
@@ -244,7 +314,8 @@ def extract(cls: Any, table: str, env: Dict[str, Any], atomic_setdefault: bool =
             s2.action = END
         # the __init__ steps never touch the table: extraction above refuses otherwise
         if s.action in (TEST_PRESENT, STORE, ALLOC, SETDEFAULT_RET, SETDEFAULT_ASSIGN, RET_TABLE,
-                        SETDEFAULT_DISCARD, SDR_RET, SDW_RET, SDR_ASSIGN, SDW_ASSIGN, SDR_DISCARD, SDW_DISCARD):
+                        SETDEFAULT_DISCARD, SDR_RET, SDW_RET, SDR_ASSIGN, SDW_ASSIGN, SDR_DISCARD, SDW_DISCARD,
+                        LOAD_LOCAL, TEST_LOCAL, RET_LOCAL, LOADTEST_LOCAL):
             raise HarnessError(f"__init__ touches the intern table: {s.src}")
         steps.append(s2)
     return steps
@@ -262,18 +333,21 @@ def search(steps: List[Step], threads: int, timeout_ms: int = 60000) -> Dict[str
     pc = [[z3.Int(f"pc{t}_{k}") for k in range(threads)] for t in range(maxlen + 1)]
     slf = [[z3.Int(f"self{t}_{k}") for k in range(threads)] for t in range(maxlen + 1)]
     ret = [[z3.Int(f"ret{t}_{k}") for k in range(threads)] for t in range(maxlen + 1)]
+    loc = [[[z3.Int(f"loc{t}_{k}_{j}") for j in range(MAX_SLOTS)] for k in range(threads)]
+           for t in range(maxlen + 1)]
     tab = [z3.Int(f"table{t}") for t in range(maxlen + 1)]
     lock = [z3.Int(f"lock{t}") for t in range(maxlen + 1)]     # 0 free, k+1 held by k
     S.add(tab[0] == 0, lock[0] == 0)
     for k in range(threads):
-        S.add(pc[0][k] == 0, slf[0][k] == 0, ret[0][k] == 0)
+        S.add(pc[0][k] == 0, slf[0][k] == 0, ret[0][k] == 0, *[loc[0][k][j] == 0 for j in range(MAX_SLOTS)])
     for t in range(maxlen):
         S.add(sched[t] >= 0, sched[t] < threads)
         for k in range(threads):
             active = sched[t] == k
             # frame: an inactive thread keeps its state
             S.add(z3.Implies(z3.Not(active), z3.And(pc[t + 1][k] == pc[t][k], slf[t + 1][k] == slf[t][k],
-                                                    ret[t + 1][k] == ret[t][k])))
+                                                    ret[t + 1][k] == ret[t][k],
+                                                    *[loc[t + 1][k][j] == loc[t][k][j] for j in range(MAX_SLOTS)])))
             cases = []
             for i, s in enumerate(steps):
                 here = z3.And(active, pc[t][k] == i)
@@ -285,6 +359,9 @@ def search(steps: List[Step], threads: int, timeout_ms: int = 60000) -> Dict[str
                 rel = "[releases lock]" in s.src
                 lk = (lock[t + 1] == 0) if rel else keep_lock
                 a = s.action
+                writes_loc = a in (LOAD_LOCAL, LOADTEST_LOCAL)
+                keep_loc = z3.And(*[loc[t + 1][k][j] == loc[t][k][j] for j in range(MAX_SLOTS)
+                                    if not (writes_loc and j == s.slot)])
                 if a == END:
                     eff = z3.And(pc[t + 1][k] == end, keep_tab, keep_self, keep_ret, keep_lock)
                 elif a in (LOCAL, BRANCH_LOCAL):
@@ -329,6 +406,17 @@ def search(steps: List[Step], threads: int, timeout_ms: int = 60000) -> Dict[str
                                  pc[t + 1][k] == z3.If(tab[t] != 0, alt, nxt))
                 elif a == SDW_DISCARD:
                     eff = z3.And(pc[t + 1][k] == nxt, tab[t + 1] == slf[t][k], keep_self, keep_ret, keep_lock)
+                elif a == LOAD_LOCAL:
+                    eff = z3.And(pc[t + 1][k] == nxt, loc[t + 1][k][s.slot] == tab[t], keep_tab, keep_self,
+                                 keep_ret, keep_lock)
+                elif a == LOADTEST_LOCAL:
+                    eff = z3.And(pc[t + 1][k] == z3.If(tab[t] != 0, nxt, alt), loc[t + 1][k][s.slot] == tab[t],
+                                 keep_tab, keep_self, keep_ret, keep_lock)
+                elif a == TEST_LOCAL:
+                    eff = z3.And(pc[t + 1][k] == z3.If(loc[t][k][s.slot] != 0, nxt, alt), keep_tab, keep_self,
+                                 keep_ret, keep_lock)
+                elif a == RET_LOCAL:
+                    eff = z3.And(pc[t + 1][k] == nxt, ret[t + 1][k] == loc[t][k][s.slot], keep_tab, keep_self, lk)
                 elif a == RET_OTHER:
                     eff = z3.And(pc[t + 1][k] == nxt, ret[t + 1][k] == -1, keep_tab, keep_self, lk)
                 elif a == LOCK_ACQ:
@@ -339,7 +427,7 @@ def search(steps: List[Step], threads: int, timeout_ms: int = 60000) -> Dict[str
                     eff = z3.And(pc[t + 1][k] == nxt, lock[t + 1] == 0, keep_tab, keep_self, keep_ret)
                 else:
                     raise HarnessError(f"no transition for {NAMES[a]}")
-                cases.append(z3.Implies(here, eff))
+                cases.append(z3.Implies(here, z3.And(eff, keep_loc)))
             S.add(*cases)
             S.add(z3.And(pc[t][k] >= 0, pc[t][k] <= end))
     done = z3.And(*[pc[maxlen][k] == end for k in range(threads)])
